@@ -119,7 +119,7 @@ func checkC03(c *Ctx, r *Report) {
 				okOpt = v.Kind == "struct" && constStr(v.Fields["FixLengths"]) == "true" && constStr(v.Fields["ComputeChecksums"]) == "true"
 				writes := 0
 				for _, fn := range c.LibFuncs() {
-					allInstrs(fn, false, func(in ssa.Instruction) {
+					rawInstrs(fn, false, func(in ssa.Instruction) {
 						if st, ok := in.(*ssa.Store); ok && apOf(st.Addr).Root == ssa.Value(g) {
 							writes++
 						}
